@@ -43,7 +43,7 @@ def _net(case, rng):
     # only the stalled data connection narrow (per-connection override in run_stall)
     net = scenario.random_net(rng, allow_small_pipe=False)
     if net["latency"][1] > 0.02:
-        net["latency"] = [0.001, 0.02]
+        net["latency"] = [0.01, 0.02]
     if case.get("net"):
         net.update(case["net"])
     return net
@@ -517,7 +517,8 @@ def run_chatty(case):
     net = _net(case, rng)
     idle = case["idle"]
     # the gap seen by the server is 0.9*idle + delivery jitter: keep the control channel fast
-    net["latency"] = [0.0, min(net["latency"][1], 0.02 * idle)]
+    hi_ = min(net["latency"][1], 0.02 * idle)
+    net["latency"] = [hi_ / 2, hi_]
     net["send_delay"] = 0.0
     net["capacity"] = max(net.get("capacity", 4096), 4096)
     tree = corpus.tree("/s0", B)
